@@ -8,10 +8,15 @@
 //                                                  double instantiation is on the plastic-loading branch (bpl)
 //   #define BEH_MC_LODET <radians>                 (optional) Mohr-Coulomb state generator: stresses built from principal values with a
 //                                                  prescribed Lode angle, half of them in the rounded-corner zones |lode| > lodeT
+//   #define BEH_EIGEN_TIES                         (optional) three plastic states out of four have two equal principal stresses at the iterate
+//                                                  eel + theta deel (principal frame = the axes, or a random rotation in 3D): eigen-based criteria
+//   #define BEH_TENSOR_SCALE <x>                   (optional) magnitude of the seeded tensor state variables (default 1e-4)
 //   -DBRICK_HAG / -DBRICK_HPE / -DBRICK_H3D        hypotheses compiled in (the run-time <hyps> argument selects among them)
 //   trace_brick gen <out.v> <seed> <ncases> <hyps>
 // Coq: <tag>_cond_<h>, <tag>_fz_<h> (n), <tag>_jac_<h> (n x n, row major) on the path that contains a plastic-loading
-// reference state; inputs ( eel[S] deto[S] <tensors>[S].. <scalars>.. dt <params>.. z[n] ).
+// reference state; <tag>_econd_<h>, <tag>_efz_<h>, <tag>_ejac_<h> on the path of an elastic-loading state (every flow that has a
+// threshold inactive; when the behaviour has such a flow); inputs ( eel[S] deto[S] <tensors>[S].. <scalars>.. dt <params>.. z[n] ).
+// The parameter theta of two seeded states out of three is drawn in [0.5, 1] (the .mfront files declare 1).
 // stdout: AGREE (Sym vs double computeFdF), NJ (analytical vs centred-difference jacobian of the double code: failing-input search),
 //         RUN (integrate() in double: converged residual re-evaluated)
 #include "gsym.hxx"
